@@ -111,7 +111,7 @@ CHECKS = {
         "pregen": [["go", "run", "./gen19", "-repo", "/repo", "-out", "harness/c19/zz_registry_test.go"]],
         "budget_s": {"quick": 150, "thorough": 1800},
         "meta": {
-            "rule": "registry of every exported *Schema / *States / *Groups variable of importable packages, regenerated from a scan of the current tree on every run; per schema static checks on the raw literal (Parse, dangling references, Require cycles, Require-Remove conflicts, agreement with the typed state-name list, NewCommon accepts it) and explicit-state BFS over Add1/Remove1 of each relation-connected component on a handler-less real machine (successor = Import(snapshot) + mutation, every 64th state cross-checked by full path replay); invariants in every reachable set: Require closure, no two states that Remove one another, <=1 member of every exported mutually-Removing group; cap 3000 (quick) / 400000 (thorough) reachable sets per component",
+            "rule": "registry of every exported *Schema / *States / *Groups variable of importable packages, regenerated from a scan of the current tree on every run; per schema static checks on the raw literal (Parse, dangling references, Require cycles, Require-Remove conflicts, agreement with the typed state-name list, NewCommon accepts it) and explicit-state BFS over Add1/Remove1 of each relation-connected component on a handler-less real machine (successor = Import(snapshot) + mutation, every 64th state cross-checked by full path replay); invariants in every reachable set: Require closure, no two states that Remove one another, <=1 member of every exported group declared exclusive (>=2 members use the group as their Remove list); cap 3000 (quick) / 400000 (thorough) reachable sets per component",
             "assumptions": ["components that share no Require/Add/Remove relation are explored separately (no relation crosses them, so their reachable sets multiply)", "packages main / internal / build-constrained are not importable and are listed as skipped", "schema variables are found by name suffix (Schema/States/Groups) or an explicit am.Schema type"],
         },
     },
